@@ -3,6 +3,8 @@
 import json, os, re, sys, glob
 
 DESC = {
+ "r4-C02": ("C02", "SubAck.variableHeader returns 2 + 1 + proplen for the width pass (assumes a one byte property length)", "a SUBACK with 128 bytes or more of properties: remaining length one short, last reason code not written"),
+ "r4-C09": ("C09", "Publish.UnmarshalBinary reads the payload with buf.err = p.payload.UnmarshalBinary(...): an earlier decode error is overwritten with nil", "a PUBLISH with a truncated / malformed property followed by at least one more byte"),
  "r3-C03a": ("C03", "PubRec.UnmarshalBinary returns early for frames shorter than 4 bytes (misreading of 3.5.2.1): the reason code of a length-3 PUBREC is not read", "a PUBREC of remaining length 3 with a non-zero reason code (50 03 00 09 97)"),
  "r3-C03b": ("C03", "UserProp.UnmarshalBinary decodes key and value into one reused scratch string; with bindata's keep-on-empty an empty value decodes as the key and the cursor overshoots", "a user property with a non-empty key and an empty value"),
  "r2-C02": ("C02", "Connect.fill writes the password only inside the user-name branch", "a CONNECT with a password but no user name"),
